@@ -35,13 +35,15 @@ Definition sx_wobs (s : sx) : option wobs :=
   end.
 
 Record robs : Type := mkRobs {
-  ro_panic : bool; ro_kind : Z; ro_pkt : packet; ro_consumed : N; ro_wanted : N; ro_maxcap : N }.
+  ro_panic : bool; ro_kind : Z; ro_pkt : packet; ro_consumed : N; ro_wanted : N; ro_maxcap : N;
+  ro_nowant : bool }.   (* read through a bufio.Reader: requests of the underlying reader not compared *)
 
 Definition sx_robs (s : sx) : option robs :=
   match s with
   | SList [SInt pn; SInt kind; pk; SInt consumed; SInt wanted; SInt maxcap] =>
       match sx_packet pk with
-      | Some p => Some (mkRobs (negb (Z.eqb pn 0)) kind p (Z.to_N consumed) (Z.to_N wanted) (Z.to_N maxcap))
+      | Some p => Some (mkRobs (negb (Z.eqb pn 0)) kind p (Z.to_N consumed) (Z.to_N wanted) (Z.to_N maxcap)
+                               (wanted <? 0)%Z)
       | None => None
       end
   | _ => None
@@ -140,8 +142,9 @@ Fixpoint check_reads (dec : bytes -> bytes) (unzip : bytes -> option bytes) (ver
                check_that (match r_out r with Ok p => packet_eqb p (ro_pkt o) | _ => true end)
                           (VMismatch 5);
                check_that (N.eqb (total - total_len (r_rest r)) (ro_consumed o)) (VMismatch 6);
-               check_that (N.eqb (sumN (r_reads r)) (ro_wanted o)
-                           && N.eqb (maxN (r_reads r)) (ro_maxcap o)) (VMismatch 7) ] in
+               check_that (ro_nowant o ||
+                           (N.eqb (sumN (r_reads r)) (ro_wanted o)
+                            && N.eqb (maxN (r_reads r)) (ro_maxcap o))) (VMismatch 7) ] in
       vjoin v (check_reads dec unzip ver has_c total (r_rest r) os')
   end.
 
@@ -338,6 +341,8 @@ Definition check (c : sx) : verdict :=
       check_reencode thrArg cipher pk obs
   | SList [SList [SInt 6%Z; SInt _; SInt _; SInt _; SInt _; SInt _]; SList obs] => check_stress obs
   | SList [SList [SInt 3%Z; data; chunks]; SList obs] => check_lendata data chunks obs
+  | SList [SList [SInt 4%Z; SInt ver; SInt nref; SInt bodylen; SInt _; SInt thrArg; SInt _]; SList obs] =>
+      if Z.eqb ver 1 || Z.eqb ver 2 then check_limit ver (Z.to_N nref) (Z.to_N bodylen) thrArg obs else VBad
   | SList [SList [SInt 4%Z; SInt ver; SInt nref; SInt bodylen; SInt _; SInt thrArg]; SList obs] =>
       if Z.eqb ver 1 || Z.eqb ver 2 then check_limit ver (Z.to_N nref) (Z.to_N bodylen) thrArg obs else VBad
   | _ => VBad
